@@ -12,6 +12,16 @@
      (7 str)                 big.Int.SetString(s, 0)   -> (1 value)           | (-1 1)
      (8 ioarg (prev?) (gin...))  IOArg.Set(result, ...) on a destination holding prev
                              (() = nil)          -> (1 value (wire bits...)) | (-1 code)
+     (9 (outs?) (value...))  mpc.Results(values, outputs); outs? = () for a nil IO,
+                             ((ioarg...)) for a non-nil one
+                                                  -> (1 ((out arg-after)...))  | (-1 code)
+     (10 (ioarg...) raw)     mpc.Results(outputs.Split(raw), outputs)
+                                                  -> (1 ((out arg-after)...))  | (-1 code)
+     (11 (ioarg...))         IO.Size, IOArg.Len of every argument -> (size (len...))
+     (12 (outs?) (value...) base)  mpc.PrintResults: the text after "Result[i]: " per value
+                                                  -> (1 (str...))             | (-1 code)
+     (13 str)                types.Parse(text)    -> (1 info)                 | (-1 code)
+     (14 info)               Info.String()        -> str
 
    info  = (kind bits arraysize (elem?) (fields...) concrete)
    ioarg = (info (compound...))
@@ -23,7 +33,7 @@
    The wire bits are bit i of the value for i < Type.Bits of the argument.
    Only the [_now] instances of the model (the code as it is in /repo) are used. *)
 From Coq Require Import ZArith NArith List Bool.
-From Mpc Require Import Gen.Consts Base.Sx IO.IOArg.
+From Mpc Require Import Gen.Consts Base.Sx IO.IOArg IO.IOResults IO.IOTypes.
 Import ListNotations.
 Open Scope Z_scope.
 
@@ -79,6 +89,16 @@ Definition sx_value_wires (n : nat) (z : Z) : sx := SL [SZ 1; SZ z; ofLB (wires 
 
 Definition strs_of_sx (s : sx) : list (list N) := map getLN (getL s).
 
+(* (outs?) : () = nil IO, ((ioarg...)) = non-nil IO *)
+Definition outs_of_sx (s : sx) : option (list ioarg) :=
+  match getL s with
+  | [] => None
+  | l :: _ => Some (map ioarg_of_sx (getL l))
+  end.
+
+Definition sx_of_results (l : list (gout * Z)) : sx :=
+  SL [SZ 1; SL (map (fun x => SL [sx_of_gout (fst x); SZ (snd x)]) l)].
+
 Definition run_c13 (inp : sx) : sx :=
   let op := getZ (nthx 0 inp) in
   if op =? 0 then
@@ -118,4 +138,18 @@ Definition run_c13 (inp : sx) : sx :=
     let io := ioarg_of_sx (nthx 1 inp) in
     let prev := match getL (nthx 2 inp) with [] => None | p :: _ => Some (getZ p) end in
     sx_of_res (sx_value_wires (i_bits (a_type io))) (set_into prev io (map gin_of_sx (getL (nthx 3 inp))))
+  else if op =? 9 then
+    sx_of_res sx_of_results (results (outs_of_sx (nthx 1 inp)) (getLZ (nthx 2 inp)))
+  else if op =? 10 then
+    sx_of_res sx_of_results (output_values (map ioarg_of_sx (getL (nthx 1 inp))) (getZ (nthx 2 inp)))
+  else if op =? 11 then
+    let io := map ioarg_of_sx (getL (nthx 1 inp)) in
+    SL [ofnat (io_size io); ofLnat (map ioarg_len io)]
+  else if op =? 12 then
+    sx_of_res (fun l => SL [SZ 1; SL (map ofLN l)])
+              (print_results (outs_of_sx (nthx 1 inp)) (getLZ (nthx 2 inp)) (getN (nthx 3 inp)))
+  else if op =? 13 then
+    sx_of_res (fun t => SL [SZ 1; sx_of_info t]) (types_parse (getLN (nthx 1 inp)))
+  else if op =? 14 then
+    ofLN (info_text (info_of_sx (nthx 1 inp)))
   else sx_err 99.
